@@ -102,47 +102,80 @@ class WouldBlock(Exception):
     """The driven coroutine tried to wait on real I/O."""
 
 
-def drive(coro):
+_LOOP = [None]
+
+
+def _loop():
+    import asyncio
+
+    if _LOOP[0] is None or _LOOP[0].is_closed():
+        _LOOP[0] = asyncio.new_event_loop()
+    return _LOOP[0]
+
+
+def _run(coro):
     """
-    Run a coroutine to completion without an event loop.  Every suspension
-    point of a client operation is a sender call, and the seam's sender
-    answers synchronously, so an operation never actually suspends.
+    Run a coroutine on the harness's own event loop until it completes.  The
+    seam's sender answers synchronously, so a client operation normally
+    finishes without ever blocking; code under test may nevertheless use
+    futures, locks or tasks of a RUNNING loop, which this supports.  When the
+    coroutine is not finished and the loop has nothing left to run, it waits
+    on something real: WouldBlock.
     """
+    import asyncio
+
+    loop = _loop()
+    asyncio.set_event_loop(loop)
+    task = loop.create_task(coro)
     try:
-        coro.send(None)
-    except StopIteration as stop:
-        return stop.value
-    coro.close()
-    raise WouldBlock("coroutine suspended: it waited on something real")
+        for _ in range(100000):
+            loop.call_soon(loop.stop)
+            loop.run_forever()
+            if task.done():
+                return task.result()
+            if not loop._ready and not loop._scheduled:
+                break
+        task.cancel()
+        try:
+            loop.call_soon(loop.stop)
+            loop.run_forever()
+        except BaseException:  # noqa: BLE001
+            pass
+        raise WouldBlock("coroutine suspended: it waited on something real")
+    except BaseException:
+        if not task.done():
+            task.cancel()
+            try:
+                loop.call_soon(loop.stop)
+                loop.run_forever()
+            except BaseException:  # noqa: BLE001
+                pass
+        raise
+
+
+def drive(coro):
+    """Run a client coroutine to completion (see _run)."""
+    return _run(coro)
 
 
 def drive_agen(agen, limit=None):
-    """Collect an async generator without an event loop."""
-    out = []
-    try:
-        while True:
-            step = agen.__anext__()
-            try:
-                step.send(None)
-            except StopIteration as stop:
-                out.append(stop.value)
+    """Collect an async generator."""
+
+    async def collect():
+        out = []
+        try:
+            async for item in agen:
+                out.append(item)
                 if limit is not None and len(out) > limit:
                     raise BudgetExceeded("yield limit")
-                continue
-            except StopAsyncIteration:
-                return out
-            raise WouldBlock("async generator suspended")
-    finally:
-        try:
-            closer = agen.aclose()
+        finally:
             try:
-                closer.send(None)
-            except (StopIteration, StopAsyncIteration):
+                await agen.aclose()
+            except BaseException:  # noqa: BLE001
                 pass
-            except BaseException:
-                pass
-        except BaseException:
-            pass
+        return out
+
+    return _run(collect())
 
 
 def outcome(fn):
